@@ -27,6 +27,8 @@ def main():
     if not clean():
         sys.exit("refusing: /repo has uncommitted changes")
     out = {}
+    if only and (V / "seeded" / "PASS.json").exists():       # partial re-run: keep the other entries
+        out = json.loads((V / "seeded" / "PASS.json").read_text())
     for d in sorted((V / "seeded").iterdir()):
         if not (d / "patch.diff").exists() or (only and d.name not in only):
             continue
